@@ -74,12 +74,14 @@ def _kseed(seed, ka, kb, inst):
     return [int(seed), ro.KINDS.index(ka), ro.KINDS.index(kb), int(inst)]
 
 
-def gen_case(ka, kb, inst, seed, tier):
+def gen_case(ka, kb, inst, seed, tier, p_far=0.12, p_nested=0.23, max_offset=2.2):
     from rt import regionoracle as ro
 
     rng = np.random.default_rng(_kseed(seed, ka, kb, inst))
     zA = float(rng.choice(ro.ZLEVELS))
-    zB = zA if rng.random() < 0.7 else float(rng.choice(ro.ZLEVELS))
+    zB = zA if rng.random() < 0.62 else float(rng.choice([z for z in ro.ZLEVELS if z != zA]))
+    if kb not in ro.PLANAR:
+        zB = zA  # only planar operands are placed at a different height; solids / paths / point sets stay around A
     if ka == "polyline" or ka == "grid":
         zA = 0.0
         if rng.random() < 0.6:
@@ -92,11 +94,11 @@ def gen_case(ka, kb, inst, seed, tier):
     relation = "overlap"
     ctr = None
     scale = None
-    if mode < 0.12:
+    if mode < p_far:
         relation = "far"
         ang = rng.uniform(0, 2 * math.pi)
         ctr = (14 * math.cos(ang), 14 * math.sin(ang), rng.uniform(-0.5, 0.5))
-    elif mode < 0.35:
+    elif mode < p_far + p_nested:
         relation = "nested"
         S = A.sample(rng, 40) if ka not in ("all", "empty", "footprint") else None
         if S is not None and len(S):
@@ -110,7 +112,7 @@ def gen_case(ka, kb, inst, seed, tier):
             scale = float(rng.uniform(0.12, 0.3))
     else:
         ang = rng.uniform(0, 2 * math.pi)
-        rad = rng.uniform(0, 2.2)
+        rad = rng.uniform(0, max_offset)
         ctr = (rad * math.cos(ang), rad * math.sin(ang), rng.uniform(-0.5, 0.5))
     dB = ro.gen(kb, rng, z=zB, ctr=ctr, scale=scale)
     return {"A": dA, "B": dB, "relation": relation, "pseed": int(rng.integers(0, 2**31)), "nprobe": 64 if tier == "quick" else 140}
@@ -218,6 +220,17 @@ def classify(check, info, case):
     if check == "unary.contains" and info.get("cls") == "PolylineRegion" and info.get("obs") is False and info.get("p", [0, 0, 1])[2] == 0:
         return POLYLINE_EXACT
     planar_nz = [d["kind"] in ("polygon", "circle", "sector", "rect") and (d["params"].get("z", None) if d["kind"] == "polygon" else d["params"]["c"][2]) != 0 for d in (case["A"], case["B"])]
+    def _pz(d):
+        if d["kind"] == "polygon":
+            return d["params"].get("z")
+        return d["params"]["c"][2] if d["kind"] in ("circle", "sector", "rect") else None
+
+    za_, zb_ = _pz(case["A"]), _pz(case["B"])
+    if za_ is not None and zb_ is not None and za_ != zb_ and info.get("obs") is True:
+        if check == "containsRegion":
+            return "polygon.containsRegion-ignores-height"
+        if check == "intersects" and ka == "circle" and kb == "circle":
+            return "circular.intersects-ignores-height"
     if "polyline" in (ka, kb) and any(planar_nz) and ka != kb:
         if check == "intersects" and info.get("obs") is True:
             return "polygon-polyline.intersects-ignores-height"
@@ -237,7 +250,7 @@ def classify(check, info, case):
         return "meshsurface.random-parameter-default-orientation-leaks-into-composite"
     if info.get("alt_key"):
         return info["alt_key"]
-    if check == "op.error" and "RecursionError" in err and op == "and" and ka in ("pointset", "grid") and kb in ("pointset", "grid"):
+    if check == "op.error" and "RecursionError" in err and op == "and" and ((ka in ("pointset", "grid") and kb in ("pointset", "grid")) or (info.get("nested") and ("pointset" in (ka, kb) or "grid" in (ka, kb)))):
         return "pointset.intersect-pointset-infinite-recursion"
     if check == "containsRegion.error" and "too many values to unpack" in err and ka in ("pointset", "grid") and kb in ("pointset", "grid"):
         return "pointset.containsRegionInner-kdtree-query-unpack"
@@ -574,7 +587,7 @@ def check_projection(mon, X, SX, rng, n=6):
                 mon.bump("projections_nearest_behind")
 
 
-def check_result(mon, R, op, A, B, P, mA, mB, fA, fB, dA, dB, rng, label=""):
+def check_result(mon, R, op, A, B, P, mA, mB, fA, fB, dA, dB, rng, label="", variants=()):
     """one operation result against the Boolean combination of the operands' oracle memberships"""
     from rt.regionrun import V, arr, draw, outcome
 
@@ -649,7 +662,10 @@ def check_result(mon, R, op, A, B, P, mA, mB, fA, fB, dA, dB, rng, label=""):
         elif expp is not None and expp[i] != -1 and obs == bool(expp[i]):
             mon.bump("membership_compared")
             mon.bump("membership_z_ignored_as_documented")
-        elif e3 == -1 or (lenient and ef == -1) or (expp is not None and expp[i] == -1):
+        elif any(v[i] != -1 and obs == bool(v[i]) for v in variants):
+            mon.bump("membership_compared")
+            mon.bump("membership_z_ignored_as_documented")
+        elif e3 == -1 or (lenient and ef == -1) or (expp is not None and expp[i] == -1) or any(v[i] == -1 for v in variants):
             mon.skip("probe_near_boundary")
         else:
             mon.bump("membership_compared")
@@ -720,7 +736,17 @@ def check_result(mon, R, op, A, B, P, mA, mB, fA, fB, dA, dB, rng, label=""):
     elif k == "error":
         mon.report("result.aabb-error", f"A.{opn}(B) -> {rc}.AABB raised {bb}", dict(info0, error=bb))
     # a few samples of the result must be members of the expected set (cross-check with C03)
-    pts, rej, err, unsup = draw(R, 12, max_tries=150)
+    costly = False
+    if hasattr(R, "num_samples"):
+        # MeshVolumeRegion draws by rejection from the bounding box with a batch size growing as the volume fraction
+        # shrinks (up to 1e6 points per draw for sliver-like boolean results): not sampled here
+        k, ns = outcome(lambda: R.num_samples)
+        costly = k != "ok" or ns > 400
+    if costly:
+        mon.bump("result_sampling_skipped_tiny_volume_fraction")
+        pts, rej, err, unsup = np.zeros((0, 3)), 0, None, None
+    else:
+        pts, rej, err, unsup = draw(R, 12, max_tries=150)
     if err:
         mon.report("result.sample-error", f"A.{opn}(B) -> {rc}.uniformPointInner raised {err}; A={_short(A)} B={_short(B)}", dict(info0, error=err))
     if len(pts):
@@ -911,14 +937,23 @@ def check_case(case, C, S):
             else:
                 mon.bump("nested_results_checked")
                 inner = ro.Combo(op1, A, B)
+                inner.planar_z = expected_height(op1, A, B) if _rclass(R1) in ("PolygonalRegion", "CircularRegion", "SectorRegion", "RectangularRegion") else None
                 sel = rng.permutation(len(P))[: max(20, len(P) // 4)]
                 m1, f1 = _comb(op1, mA, mB), _comb(op1, fA, fB)
+                # documented footprint leniency can apply to the inner result and to the outer operand independently
+                variants = [_comb(op2, f1[sel], mX[sel]), _comb(op2, m1[sel], fX[sel])]
+                if inner.planar_z is not None:
+                    # a planar inner result answers containsPoint for the point's projection onto its plane
+                    Pq = P[sel].copy()
+                    Pq[:, 2] = inner.planar_z
+                    iq = _comb(op1, A.member(Pq), B.member(Pq))
+                    variants += [_comb(op2, iq, mX[sel]), _comb(op2, iq, fX[sel])]
                 saved = mon.alts
                 mon.alts = []
                 for key, w_, alt in saved:
                     A2, B2 = (alt, B) if w_ == "A" else (A, alt)
                     mon.alts.append((key, "BOTH", (ro.Combo(op1, A2, B2), A2 if which == "A" else B2)))
-                check_result(mon, R2, op2, inner, X, P[sel], m1[sel], mX[sel], f1[sel], fX[sel], None, None, rng, label=f"[nested: A:=(A.{OPNAME[op1]}(B)), B:={which}]")
+                check_result(mon, R2, op2, inner, X, P[sel], m1[sel], mX[sel], f1[sel], fX[sel], None, None, rng, label=f"[nested: A:=(A.{OPNAME[op1]}(B)), B:={which}]", variants=variants)
                 mon.alts = saved
 
     # --- intersects
@@ -973,7 +1008,8 @@ def check_case(case, C, S):
                 continue
             LA = LA if LA is not None else SA
             LB = LB if LB is not None else SB
-            for op in OPS:
+            lazy_ops = OPS if mon.case.get("all_lazy_ops") else (OPS[int(rng.integers(0, 3))], "sub" if mode == "delayed" else "or")
+            for op in dict.fromkeys(lazy_ops):
                 k, RL = outcome(getattr(LA, OPNAME[op]), LB)
                 if k == "unsupported":
                     mon.bump("lazy_op_not_accepted")
